@@ -21,6 +21,13 @@ pub enum Event {
         t: usize,
         pat: u8,
     },
+    /// the worker exits, and *while it is exiting* a thread-local of the caller's that was first
+    /// touched before any library call (so it is destroyed after any thread-local the library may
+    /// own) makes this call from its destructor — a per-thread "flush on exit"
+    ExitCall {
+        t: usize,
+        op: Op,
+    },
 }
 
 impl Event {
@@ -37,6 +44,10 @@ impl Event {
                 t,
                 pat,
             } => format!("T{} POISON {}", t, pat),
+            Event::ExitCall {
+                t,
+                op,
+            } => format!("T{} EXITCALL {}", t, op.encode()),
         }
     }
     pub fn decode(line: &str) -> Option<Event> {
@@ -52,6 +63,12 @@ impl Event {
             return Some(Event::Poison {
                 t,
                 pat: p.trim().parse().ok()?,
+            });
+        }
+        if let Some(o) = rest.strip_prefix("EXITCALL ") {
+            return Some(Event::ExitCall {
+                t,
+                op: Op::decode(o)?,
             });
         }
         Some(Event::Exec {
@@ -942,6 +959,15 @@ pub fn gen_op(r: &mut Rng, sw: &Swarm) -> Op {
             which: r.below(2) as u8,
         };
     }
+    if r.below(1000) < sw.nan_custom_permille / 2 {
+        let hot = sw.hot_exps[0] as u64;
+        let idx = ((hot + r.below(2)) % PINF_POOL.len() as u64) as u8;
+        return Op::PInfCustom {
+            ty: fty(r),
+            idx,
+            text: r.below(PINF_TEXTS.len() as u64) as u8,
+        };
+    }
     if r.below(1000) < sw.nan_custom_permille {
         // a run uses two or three of the custom strings, so the same options address sees different contents
         let hot = sw.hot_exps[0] as u64;
@@ -995,6 +1021,31 @@ pub fn gen_op(r: &mut Rng, sw: &Swarm) -> Op {
                     ty,
                     text,
                     expect,
+                };
+            },
+            K_WFLOAT if r.chance(1, 7) => {
+                // a digit limit; values include exact decimal ties at that digit count (a / 2^k)
+                let ty = fty(r);
+                let max = *r.pick(&[1u8, 2, 3, 4, 5, 8, 12, 15, 17]);
+                let bits = if r.chance(1, 2) {
+                    let a = (2 * r.below(1000) + 1) as f64;
+                    let v = a / (1u64 << (1 + r.below(6))) as f64 * 10f64.powi(r.below(4) as i32);
+                    let v = if r.chance(1, 2) {
+                        -v
+                    } else {
+                        v
+                    };
+                    match ty {
+                        FloatTy::F32 => (v as f32).to_bits() as u64,
+                        FloatTy::F64 => v.to_bits(),
+                    }
+                } else {
+                    gen_float_bits(r, ty, sw)
+                };
+                return Op::WFloatDigits {
+                    ty,
+                    bits,
+                    max,
                 };
             },
             K_WFLOAT if r.chance(1, 5) => {
@@ -1095,9 +1146,17 @@ pub fn gen_history(seed: u64, sw: &Swarm) -> Vec<Event> {
         let t = r.below(sw.threads as u64) as usize;
         let x = r.below(1000);
         if x < sw.kill_permille {
-            ev.push(Event::Kill {
-                t,
-            });
+            if r.chance(1, 2) {
+                let op = gen_op(&mut r, sw);
+                ev.push(Event::ExitCall {
+                    t,
+                    op,
+                });
+            } else {
+                ev.push(Event::Kill {
+                    t,
+                });
+            }
         } else if x < sw.kill_permille + sw.poison_permille {
             ev.push(Event::Poison {
                 t,
